@@ -278,6 +278,11 @@ func runProgramInner(impl string, p program, faults []int, randFault bool) (res 
 			if serr != nil {
 				// a failed Close can be retried once the fault is gone
 				clear()
+				// ... and a read in between either is refused or still sees the secret: never anything else
+				// (the bytes may already have been wiped by the failed attempt)
+				if aerr := s.WithBytes(check); aerr != nil && strings.Contains(aerr.Error(), "different bytes") {
+					add("c12-reader-saw-other-bytes", "a read after a failed Close (%v) was let in and saw other bytes than the secret", serr)
+				}
 				if rerr := s.Close(); rerr != nil {
 					add("c12-close-not-retriable", "Close failed (%v) and the retry failed too: %v", serr, rerr)
 				}
